@@ -432,7 +432,11 @@ func keyFieldsIntact(orig, mut []byte) bool {
 	sb, okb := ref.Suites12[b.CipherSuiteID]
 	sameCrypto := oka && okb && sa.Kind == sb.Kind && sa.PRF == sb.PRF && sa.MAC == sb.MAC && sa.KeyLen == sb.KeyLen && sa.TagLen == sb.TagLen
 
-	return sameCrypto && bytes.Equal(a.MasterSecret, b.MasterSecret) && a.LocalRandom == b.LocalRandom &&
+	// (the master secret is only ever used as an HMAC key, and HMAC pads its key with zeros: secrets that differ
+	// in trailing zero bytes - a truncation that removed a zero byte, one time in 256 - give the same keys)
+	sameMaster := bytes.Equal(bytes.TrimRight(a.MasterSecret, "\x00"), bytes.TrimRight(b.MasterSecret, "\x00"))
+
+	return sameCrypto && sameMaster && a.LocalRandom == b.LocalRandom &&
 		a.RemoteRandom == b.RemoteRandom && a.IsClient == b.IsClient
 }
 
